@@ -134,7 +134,8 @@ def _tolerance_one(name, X, cuts, n):
     if "Gaussian" in name:
         mv = "Cov" in name
         vmin = min_slice_variance(X, cuts, mv)
-        if not np.isfinite(vmin) or vmin <= max(1e-8 * M * M, 1e-300):
+        # "well above the variance floor": relative to the data's magnitude AND to the library's absolute floor of 1e-16
+        if not np.isfinite(vmin) or vmin <= max(1e-8 * M * M, 1e-10):
             return None
         width = max(c[-1] - c[0] for c in cuts)
         return 16 * X.shape[1] * width * B / vmin
@@ -419,7 +420,7 @@ def check_detector(case):
             # after the inner interval): bound their variance through the smallest pairwise gap
             gap = min(float(np.min(np.abs(X[i] - X[j]))) for i in range(n) for j in range(i + 1, n))
             vmin = min(vmin, gap * gap / (2.0 * n))
-        if not np.isfinite(vmin) or vmin <= max(1e-8 * M * M, 1e-300):
+        if not np.isfinite(vmin) or vmin <= max(1e-8 * M * M, 1e-10):
             return {"nontrivial": False, "classes": classes + ["near_degenerate_skipped"]}
         cost_tol = 16 * p * n * B / vmin
     else:
